@@ -24,6 +24,10 @@ P = {
   "Lean theorems over a model of Split parametric in the three Unicode predicates (split_total_lossless: for every classification and every input the guarded splitter returns non-empty words whose concatenation is the input; splitBytes_total for byte strings that are not UTF-8; makeCase_total for every converter built on it), tied to the code by a differential run of the compiled model against camelcase.Split and the six converters (rune classes taken from Go's unicode tables) incl. an exhaustive enumeration of all short strings over an 8-symbol alphabet covering the four classes.",
   "Trusted: Lean kernel; the hand-written model's agreement with the code is sampled (and exhaustive only on the small alphabet); unicode.IsLower/IsUpper/IsDigit are arbitrary predicates in the theorems; strings.ToLower/ToUpper, cases.Title are parameters (total library functions).",
   "Lean 4 proof (induction over the rune list) + model/implementation correspondence", "6 C19"),
+ "C20": (True,
+  "Lean theorems over a model of the irregular-word step and of the memo cache (irregular_total: the repaired step never fails, for any fold relation and ToLower; irregular_prefix / irregular_spelled / irregular_entry: after any boundary-ending prefix a table word becomes prefix ++ its replacement, using the table facts plural_heads / singular_heads decided over the tables regenerated from rules.go; cache_refines: every call in every call sequence — every linearisation of concurrent callers — returns the pure function's value), tied to the code by a differential run of the compiled model composed with a re-statement of the ordered regexp rules read from the source, against Pluralize/Singularize on every irregular word × case × prefix menu and random variants; concurrent bursts on cold keys (with the race detector in the thorough tier).",
+  "Trusted: Lean kernel; regexp semantics of the one irregular pattern shape (greedy prefix, ASCII \\b, (?i) folding incl. U+017F/U+212A) as modelled; sync.Map linearizable, sync.OnceValue exactly-once; the ~55 ordered regexp rules and the uninflected list are covered by correspondence only (regexp is total); schedules are sampled, not enumerated.",
+  "Lean 4 proof (irregular step, cache refinement, table facts by decide over regenerated tables) + correspondence + race-detector sampling", "6 C20"),
 }
 
 ALL = ["C%02d" % i for i in range(1, 21)]
